@@ -1012,9 +1012,7 @@ TAKE_FRONT, TAKE_BACK = {"pop_first"}, {"pop_last"}
 
 
 def fifo_rule(ctx, mod, cls, MODNAME, attr, cancellers, rule="queue/fifo", floor=3):
-    q = f"{MODNAME}.{cls.name}"
     acc = [a for a in class_accesses(mod, cls, {attr}, receivers={"self"})]
-    base = None
     for b in cls.bases:
         bc = mod.find(dotted(b) or "")
         if isinstance(bc, ast.ClassDef):
@@ -1778,7 +1776,7 @@ def check_delayed_call(ctx, mod, heap_rules=True):
 
     # ---- reset / delay / activate_delay: symbolic linear paths
     TR = ["time", "delayed_time"]
-    T0, D0 = ({"time@0": 1}, 0), ({"delayed_time@0": 1}, 0)
+    T0 = ({"time@0": 1}, 0)
 
     def paths_of(name):
         f = ctx.func(BASE, f"DelayedCall.{name}")
@@ -1796,7 +1794,6 @@ def check_delayed_call(ctx, mod, heap_rules=True):
         if not heap_rules:
             return
         T, D = p.fields["time"], p.fields["delayed_time"]
-        node = p.exit[1] if p.exit[1] is not None else None
         where = ctx.construct(q, SymExec.label(p))
         if T is None or D is None:
             raise Unsupported(f"{q}: time/delayed_time assigned a non-linear value")
